@@ -12,7 +12,8 @@ let mk lip ip rh mrh bmf db rc rhost rip rinfo loc =
     g_databytes = n_of_int (int_of_string db); g_relayclient = optb rc; g_remotehost = bytes_of_hex rhost; g_remoteip = bytes_of_hex rip;
     g_remoteinfo = optb rinfo; g_local = bytes_of_hex loc }
 let vch = function MK -> "K" | MFail c -> if int_of_n c = 68 then "D" else "Z"
-let hexs l = if l = [] then "-" else String.concat "+" (List.map hex_of_bytes l)
+(* "-" = no element; an empty element is "=" (hex_of_bytes [] is "-" too: one empty recipient must not read as none) *)
+let hexs l = if l = [] then "-" else String.concat "+" (List.map (fun b -> if b = [] then "=" else hex_of_bytes b) l)
 let () = iter_lines (fun line ->
   let out = match split_ws line with
     | ["qmtp"; lip; ip; rh; mrh; bmf; db; rc; rhost; rip; rinfo; loc; inp; qq] ->
